@@ -76,7 +76,8 @@ def cases(draw, max_gaps=11):
     mode = draw(st.sampled_from(['online', 'offline']))
     xs = [draw(st.integers(-4, 8)) / 2.0 for _ in range(ng + 1)]
     ys = [draw(st.integers(-4, 8)) / 2.0 for _ in range(ng + 1)]
-    return {'period': [v, pu], 'unit': du, 'tol': tol, 'ks': ks, 't0k': t0k, 'mode': mode, 'x': xs, 'y': ys}
+    # the dedicated offline / online class, or the combined class of the README (offline and online in one object)
+    return {'period': [v, pu], 'unit': du, 'tol': tol, 'ks': ks, 't0k': t0k, 'mode': mode, 'x': xs, 'y': ys, 'combined': draw(st.booleans())}
 
 
 def run(case, stamps):
@@ -109,17 +110,17 @@ def check(case):
     tol = case['tol']
     exp = expected(stamps_fr, P, Fraction(tol) if tol != 0.1 else Fraction(1, 10))
     gaps_in = len(case['ks']) - exp
-    labels = ['mode:' + case['mode'], 'gaps:%d' % min(len(case['ks']), 6), 'tol:%g' % tol,
+    labels = ['mode:' + case['mode'], 'class:' + ('combined' if case.get('combined') else 'dedicated'), 'gaps:%d' % min(len(case['ks']), 6), 'tol:%g' % tol,
               'unit-differs' if pu != du else 'unit-same']
     nontrivial = (len(case['ks']) >= 2 and exp >= 1 and gaps_in >= 1) or pu != du
     o = run(case, stamps)
-    desc = 'period=%s%s default unit=%s tolerance=%g mode=%s\nstamps: %s (gap/P-1 in 16ths: %s)' % (
-        v, pu, du, tol, case['mode'], stamps, case['ks'])
+    desc = 'period=%s%s default unit=%s tolerance=%g mode=%s class=%s\nstamps: %s (gap/P-1 in 16ths: %s)' % (
+        v, pu, du, tol, case['mode'], 'StlDiscreteTimeSpecification' if case.get('combined') else 'dedicated', stamps, case['ks'])
     if o[0] != 'ok':
         return FAIL('exc:%s@%s' % (o[1], o[4]), desc + '\nraised %s: %s at %s' % (o[1], o[3], o[4]), labels)
     if o[1] != exp:
         kind = 'overcount' if o[1] > exp else 'undercount'
-        return FAIL('counter:%s:%s' % (case['mode'], kind), desc + '\nsampling_violation_counter = %r, expected %d' % (o[1], exp), labels)
+        return FAIL('counter:%s:%s%s' % (case['mode'], kind, ':combined-class' if case.get('combined') else ''), desc + '\nsampling_violation_counter = %r, expected %d' % (o[1], exp), labels)
     # robustness unaffected by jitter
     n = len(stamps)
     plain = [float(P * i) for i in range(n)]
